@@ -19,6 +19,7 @@ import (
 	"sync"
 	"syscall"
 	"testing"
+	"testing/synctest"
 	"time"
 )
 
@@ -78,6 +79,7 @@ type PropSpec struct {
 	CaseTimeout time.Duration                            // real-time watchdog per case (default 60 s)
 	Workers     int                                      // default: 16
 	OneShot     bool                                     // one process per case (cases leave through os.Exit)
+	NoFailFast  bool                                     // real-time checks: a first violation may be a timing artefact, do not cut the run short
 }
 
 var props = map[string]*PropSpec{}
@@ -1044,4 +1046,21 @@ func indent(s, p string) string {
 		l = l[:25]
 	}
 	return strings.Join(l, "\n"+p)
+}
+
+// bubble runs f in a testing/synctest bubble. Goroutines of the system under test that never end make
+// synctest panic when the bubble's main function returns; that is not the case's verdict (leaks are
+// C17's subject), so the panic is absorbed here and what the case recorded so far is kept.
+func bubble(t *testing.T, f func(t *testing.T)) (leaked bool) {
+	defer func() {
+		if r := recover(); r != nil {
+			if strings.Contains(fmt.Sprint(r), "blocked goroutines remain") {
+				leaked = true
+				return
+			}
+			panic(r)
+		}
+	}()
+	synctest.Test(t, f)
+	return false
 }
